@@ -124,7 +124,7 @@ def pspec (j : Json) : Params.PSpec :=
     v := { minLen := optNat j "minLen", maxLen := optNat j "maxLen", enumS := Diff.J.strs j "enumS",
            minI := Diff.J.optInt j "minI", exMin := Diff.J.bool j "exMin", maxI := Diff.J.optInt j "maxI", exMax := Diff.J.bool j "exMax",
            enumI := (Diff.J.arr j "enumI").filterMap (fun x => x.getInt?.toOption) },
-    minItems := optNat j "minItems", maxItems := optNat j "maxItems", unique := Diff.J.bool j "unique" }
+    minItems := optNat j "minItems", maxItems := optNat j "maxItems", unique := Diff.J.bool j "unique", allowEmpty := Diff.J.bool j "allowEmpty" }
 
 def valJson : Params.Val → Json
   | .s x => Json.mkObj [("s", Json.str x)]
@@ -281,6 +281,7 @@ partial def toSchema (j : Json) : Schema.Schema :=
     minimum := Diff.J.optInt j "minimum", exMin := Diff.J.bool j "exMin", maximum := Diff.J.optInt j "maximum", exMax := Diff.J.bool j "exMax",
     multipleOf := Diff.J.optInt j "multipleOf", enum := (Diff.J.arr j "enum").map toJ, items := sub "items",
     minItems := optNat j "minItems", maxItems := optNat j "maxItems", unique := Diff.J.bool j "unique",
+    minProps := optNat j "minProps", maxProps := optNat j "maxProps",
     props := (Diff.J.arr j "props").map (fun kv => (Diff.J.str kv "k", toSchema ((kv.getObjVal? "v").toOption.getD .null))),
     required := Diff.J.strs j "required", addl := sub "addl", allOf := (Diff.J.arr j "allOf").map toSchema }
 
